@@ -54,8 +54,57 @@ fn gen_prefixy_tree(rng: &mut Rng) -> Tree {
     t
 }
 
+/// Directed, real code + the property's own oracle: a WIDE tree stored with the default options (one index hunk
+/// of several thousand entries): a directory of 4200 files sorting before a small nested directory with
+/// non-ASCII names and prefix-sharing siblings; every subtree listing = the full listing filtered, every subtree
+/// restore = the full restore filtered.
+fn wide_tree(report: &mut Report) {
+    let work = tempfile::tempdir().unwrap();
+    let (src, arch) = (work.path().join("src"), work.path().join("arch"));
+    std::fs::create_dir(&src).unwrap();
+    std::fs::create_dir(src.join("cache")).unwrap();
+    for i in 0..4200 {
+        std::fs::write(src.join("cache").join(format!("c{i:05}")), b"").unwrap();
+    }
+    for d in ["docs", "docs/é", "docs/sub", "docs.old", "docs2", "docsé", "zz"] {
+        std::fs::create_dir(src.join(d)).unwrap();
+    }
+    for (f, body) in [("docs/a.txt", "a"), ("docs/é/b", "b"), ("docs/sub/c", "c"), ("docs.old/x", "x"), ("docs2/y", "y"), ("docsé/z", "z"), ("zz/last", "l"), ("top", "t")] {
+        std::fs::write(src.join(f), body).unwrap();
+    }
+    create_archive(&arch);
+    let p = BackupParams { max_entries_per_hunk: 100_000, max_block_size: 20 << 20, small_file_cap: 1 << 20, owner: true, exclude: vec![] };
+    let b = real_backup(&arch, &src, &p, IceptConfig::default());
+    report.case("wide-tree", true);
+    report.hit("directed:wide-tree(one hunk of >4200 entries)");
+    if !b.result.starts_with("result ok") {
+        return;
+    }
+    let path_of = |l: &String| l.strip_prefix("entry ").and_then(|x| x.split(',').next()).and_then(|h| hex::decode(h).ok()).map(|b| String::from_utf8_lossy(&b).to_string()).unwrap_or_default();
+    let full: Vec<String> = real_list(&arch, &Sel::Closed, "/", &[], IceptConfig::default()).lines.iter().map(path_of).collect();
+    for st in ["/docs", "/docs/é", "/docs.old", "/docs2", "/docsé", "/cache", "/zz", "/top", "/docs/sub/c"] {
+        let l = real_list(&arch, &Sel::Closed, st, &[], IceptConfig::default());
+        let got: Vec<String> = l.lines.iter().map(path_of).collect();
+        let want: Vec<String> = full.iter().filter(|p| p.as_str() == st || p.starts_with(&format!("{st}/"))).cloned().collect();
+        let case = json!({"directed": "wide-tree", "subtree": st});
+        if got != want || l.events.iter().any(|e| e.starts_with("event error")) {
+            report.oracle_fail("subtree-listing-wide-tree", case, "listing a subtree of a version stored in one big index hunk differs from the full listing filtered", json!({"got": got.len(), "expected": want.len(), "first_got": got.iter().take(3).collect::<Vec<_>>(), "first_expected": want.iter().take(3).collect::<Vec<_>>()}));
+        }
+    }
+    // subtree restore of /docs = the /docs part of the source
+    let dest = work.path().join("dest");
+    let r = real_restore(&arch, &dest, &RestoreParams { sel: Sel::Closed, subtree: Some("/docs".into()), exclude: vec![], overwrite: false }, IceptConfig::default());
+    let got: BTreeSet<String> = observe(&dest).into_iter().map(|o| o.apath).collect();
+    let want: BTreeSet<String> = observe(&src).into_iter().map(|o| o.apath).filter(|p| p == "/docs" || p.starts_with("/docs/")).collect();
+    let got_sub: BTreeSet<String> = got.into_iter().filter(|p| p != "/").collect();
+    if !r.result.starts_with("result ok") || !r.events.is_empty() || got_sub != want {
+        report.oracle_fail("subtree-restore-wide-tree", json!({"directed": "wide-tree", "subtree": "/docs"}), "restoring a subtree of a version stored in one big index hunk is not that subtree", json!({"restored": got_sub.len(), "expected": want.len(), "events": r.events.iter().take(2).collect::<Vec<_>>()}));
+    }
+}
+
 pub fn run_c12(tier: &str, seed: u64, report: &mut Report) {
     let thorough = tier == "thorough";
+    wide_tree(report);
     let n = if thorough { 300 } else { 25 };
     let mut session = Session::new();
     let mut pend = Vec::new();
